@@ -1,8 +1,8 @@
 """Shared access to the real legaliser `Model` (tools/legalfloor) without solving — used by C09 and C20.
 
 `Built` builds the `Model(...)` for a netlist (YAML text) + die + ratio limit exactly as `legalfloor.main`
-does up to the first solve, forces the global slack to 0 and lists every `Equation` that carries a legality
-condition.  `build_digest` returns a canonical, JSON-serialisable digest of that constraint system.
+does up to the first solve, remembers the global slack tree it installs (then leaves the slack at 0; `set_slack`
+re-installs it or any constant) and lists every `Equation` that carries a legality condition.  `build_digest` returns a canonical, JSON-serialisable digest of that constraint system.
 GEKKO scratch directories created on the way are removed (only the ones created here).
 """
 from __future__ import annotations
@@ -58,6 +58,9 @@ class Built:
         buf = io.StringIO()
         with contextlib.redirect_stdout(buf):
             self.model = lf.Model(ml, al, xl, yl, wl, hl, dw, dh, hyper, r, names, 0.9, 0.3, 1)
+        # the process-wide slack tree Model(...) installed (temperature_ini * decay ** time, 0.27 at build time)
+        self.real_eps_tree = et.epsilon
+        self.real_eps = float(et.get_epsilon())
         et.set_epsilon(et.ExpressionTree(self.model.gekko.gekko, 0.0))
         self.eqs: list[tuple[str, object]] = []
         for mac in self.model.gekko.macros:
@@ -65,6 +68,15 @@ class Built:
         for g in ("Area", "Inter", "Fix"):
             self.eqs += [(g, e) for e in self.model.gekko.constraints.get(g, [])]
         self.other_groups = {g: len(v) for g, v in self.model.gekko.constraints.items() if g not in ("Area", "Inter", "Fix")}
+
+    def set_slack(self, raw) -> float:
+        """install the global slack: `None` = the tree Model(...) itself installed, else a constant tree of plain
+        value `raw` (what `epsilon.evaluate()` then reports is `raw`, or 0.0 when raw < 1e-6).  Returns the plain value."""
+        if raw is None:
+            et.set_epsilon(self.real_eps_tree)
+            return self.real_eps
+        et.set_epsilon(et.ExpressionTree(self.model.gekko.gekko, float(raw)))
+        return float(raw)
 
     def var_bounds(self):
         out = set()
